@@ -57,9 +57,9 @@ def compare(node, x, c):
     y_ref, ld_ref = bd.ref_eval(node, "fwd", x, c, True, tr)
     y_ref0, _ = bd.ref_eval(node, "fwd", x, c, False)
     from vf import bijcase as _bc
-    if (tr.max_ld_per_elem > ILL_LD or getattr(tr, "max_ld_leaf", 0.0) > 20.0 or not np.all(np.isfinite(y_ref))
+    if (tr.max_ld_per_elem > ILL_LD or getattr(tr, "max_ld_leaf", 0.0) > 15.0 or not np.all(np.isfinite(y_ref))
             or any(n.kind == "Planar" and _bc.planar_degenerate(n.obj, cc) for n, d, xx, cc in tr.leaf_calls)):
-        return "ill", None  # a leaf (de)magnifies by > e^15 per element / e^20 in volume, or a planar layer is numerically singular
+        return "ill", None  # a leaf (de)magnifies by > e^15 per element / e^15 in volume, or a planar layer is numerically singular
     try:  # declared shapes must be ACCEPTED by the methods
         y1, ld1 = lib_call(f"C08|{top}|transform_and_log_det", obj.transform_and_log_det, jnp.asarray(x), cj)
         y0 = lib_call(f"C08|{top}|transform", obj.transform, jnp.asarray(x), cj)
